@@ -32,8 +32,8 @@ import warnings
 import websocket._http as HT
 from websocket._socket import sock_opt
 
-OUT = "/verif/build/tlscases"
-COQ = "/verif/coq"
+OUT = os.path.join(os.path.dirname(os.path.dirname(os.path.dirname(os.path.abspath(__file__)))), "build", "tlscases")
+COQ = os.path.join(os.path.dirname(os.path.dirname(os.path.dirname(os.path.abspath(__file__)))), "coq")
 PER_FILE = 500
 HOST = "h.example"
 ENVVAR = "WEBSOCKET_CLIENT_CA_BUNDLE"
